@@ -20,7 +20,7 @@ from .ctx import Ctx
 from .model import AnalysisError, FunctionInfo
 from .report import RuleResult
 from .terms import (Attr, BoundMethod, Call, ClassRef, Const, EnumMember, Evaluator, Ext, FuncRef, Ite, Loop, New, Op,
-                    Opaque, Outcome, Sub, Sym, Term, TupleT, alternatives, default_inline, expand_outcomes, reduce_guards, unglobal, guards_repr, norm_guards, walk)
+                    Opaque, Outcome, Sub, Sym, Term, TupleT, alternatives, default_inline, expand_outcomes, reduce_guards, flat_guards, implied_literals, unglobal, guards_repr, norm_guards, walk)
 from .util import call_name, call_recv, method_calls
 
 ALIAS = {'a': 'operand1', 'b': 'operand2', 'p': 'condition', 'phi': 'condition', 'd': 'domain', 'x': 'variable', 'op': 'operator', 'operand': 'operand1'}
@@ -619,7 +619,7 @@ def R2(ctx: Ctx) -> RuleResult:
                 # delegated to a sibling with an equivalent argument: IH
                 fn = _fname(leaf)
                 if fn in ('_split_ref_quantifier', '_split_ref_operator') and name == '_refactor_ref_expr':
-                    boolean = any(pol and any((isinstance(x, Attr) and x.name == 'can_be_bool') or (isinstance(x, Op) and x.op == '&' and 'BOOL' in repr(x)) for x in walk(g)) for g, pol in norm_guards(o.guards))
+                    boolean = any(pol and any((isinstance(x, Attr) and x.name == 'can_be_bool') or (isinstance(x, Op) and x.op == '&' and 'BOOL' in repr(x)) for x in walk(g)) for g, pol in tuple(flat_guards(o.guards)) + tuple(implied_literals(o.guards, 12)))
                     if not boolean:
                         r.fail(f'{name}:boolean-guard', f'{fn} is entered without having established that the expression can be boolean: the split helpers treat their argument as a formula (and assert a unary operator to be "not"), a numeric expression such as -@B.x reaches them', f'{fi.module.relpath}:{o.lineno}')
                 if fn in R2_IH and leaf.args and leaf.args[-1] == alias:
@@ -1031,6 +1031,8 @@ def R4b(ctx: Ctx) -> RuleResult:
         gs = norm_guards(o.guards)
         pred = next((pol for t, pol in gs if isinstance(t, Attr) and t.base == x and t.name == 'is_predicate'), None)
         desc = f'[{guards_repr(gs)[:80]}] {o.kind} {str(o.value)[:60]}'
+        if o.kind == 'raise' and any(isinstance(t, Op) and t.op == 'iterating' for t, _ in o.guards):
+            continue    # raised from inside the work-list loop written out here: R4 decides which raises are right
         if o.kind != 'return':
             r.fail('split_and:path', f'entry point does not return: {desc}', fi.where)
             continue
